@@ -241,13 +241,13 @@ def upd_inv(I, frame, i, seq):
     nr = to_term(new_root, 'int')
     done = z3.And(z3.Select(sub, k), pos(k) < i)
     out += _same_cols(t, t1, k, ('root_provider_id',))
-    out.append(ops.forall([k], z3.And(
-        z3.Select(t.data['root_provider_id'], k) ==
-        z3.If(done, nr, z3.Select(t1.data['root_provider_id'], k)),
-        z3.Select(t.null['root_provider_id'], k) ==
-        z3.If(done, z3.BoolVal(False),
-              z3.Select(t1.null['root_provider_id'], k))),
-        patterns=[z3.Select(t.data['root_provider_id'], k)]))
+    out.append(ops.forall([k], z3.Select(t.data['root_provider_id'], k) ==
+                          z3.If(done, nr, z3.Select(t1.data['root_provider_id'], k)),
+                          patterns=[z3.Select(t.data['root_provider_id'], k)]))
+    out.append(ops.forall([k], z3.Select(t.null['root_provider_id'], k) ==
+                          z3.If(done, z3.BoolVal(False),
+                                z3.Select(t1.null['root_provider_id'], k)),
+                          patterns=[z3.Select(t.null['root_provider_id'], k)]))
     # the object itself reports the new root (it is one of the list, and was
     # assigned before the loop)
     me = frame.locals['self']
@@ -265,10 +265,13 @@ def _same_cols(t, t1, k, skip):
     for c in t1.data:
         if c in skip:
             continue
-        f = z3.Select(t.data[c], k) == z3.Select(t1.data[c], k)
+        out.append(ops.forall(
+            [k], z3.Select(t.data[c], k) == z3.Select(t1.data[c], k),
+            patterns=[z3.Select(t.data[c], k)]))
         if c in t1.null:
-            f = z3.And(f, z3.Select(t.null[c], k) == z3.Select(t1.null[c], k))
-        out.append(ops.forall([k], f, patterns=[z3.Select(t.data[c], k)]))
+            out.append(ops.forall(
+                [k], z3.Select(t.null[c], k) == z3.Select(t1.null[c], k),
+                patterns=[z3.Select(t.null[c], k)]))
     return out
 
 
